@@ -184,7 +184,7 @@ type TSResult struct {
 	Panics     []TSEvent
 	Underflows []TSEvent
 	// At records, for instructions selected by Watch, the states before the instruction.
-	At map[ssa.Instruction][]*tsState
+	At        map[ssa.Instruction][]*tsState
 	Truncated bool
 }
 
